@@ -484,6 +484,11 @@ func c14PolOps(isCond bool) []polOp {
 		add("SetEqualityPolicy(error-result)", func(in *polInst) { in.cd.SetEqualityPolicy(eqErr); in.eqf = 2 })
 		add("SetEqualityPolicy(result names the comparand's type)", func(in *polInst) { in.cd.SetEqualityPolicy(eqTyped); in.eqf = 3 })
 		add("SetEqualityPolicy()", func(in *polInst) { in.cd.SetEqualityPolicy(); in.eqf = 0 })
+		// several closures in one call (round 14): the first one speaks, also when it is nil
+		add("SetEqualityPolicy(error-result, nil)", func(in *polInst) { in.cd.SetEqualityPolicy(eqErr, nil); in.eqf = 2 })
+		add("SetEqualityPolicy(nil, error-result)", func(in *polInst) { in.cd.SetEqualityPolicy(nil, eqErr); in.eqf = 0 })
+		add("SetUnmarshaler(fn, nil)", func(in *polInst) { in.cd.SetUnmarshaler(unm, nil); in.umf, in.umfPartial, in.umfFour = true, false, false })
+		add("SetUnmarshaler(nil, fn)", func(in *polInst) { in.cd.SetUnmarshaler(nil, unm); in.umf, in.umfPartial, in.umfFour = false, false, false })
 		add("SetEqualityPolicy(nil)", func(in *polInst) { in.cd.SetEqualityPolicy(nil); in.eqf = 0 })
 		add("SetUnmarshaler(fn)", func(in *polInst) { in.cd.SetUnmarshaler(unm); in.umf, in.umfPartial, in.umfFour = true, false, false })
 		add("SetUnmarshaler(partial result + error)", func(in *polInst) { in.cd.SetUnmarshaler(unmPartial); in.umf, in.umfPartial, in.umfFour = true, true, false })
@@ -538,6 +543,13 @@ func c14PolOps(isCond bool) []polOp {
 	add("SetEqualityPolicy(error-result)", func(in *polInst) { in.s.SetEqualityPolicy(eqErr); in.eqf = 2 })
 	add("SetEqualityPolicy(result names the comparand's type)", func(in *polInst) { in.s.SetEqualityPolicy(eqTyped); in.eqf = 3 })
 	add("SetEqualityPolicy()", func(in *polInst) { in.s.SetEqualityPolicy(); in.eqf = 0 })
+	// several closures in one call (round 14): the first one speaks, also when it is nil
+	add("SetEqualityPolicy(error-result, nil)", func(in *polInst) { in.s.SetEqualityPolicy(eqErr, nil); in.eqf = 2 })
+	add("SetEqualityPolicy(nil, error-result)", func(in *polInst) { in.s.SetEqualityPolicy(nil, eqErr); in.eqf = 0 })
+	add("SetUnmarshaler(fn, nil)", func(in *polInst) { in.s.SetUnmarshaler(unm, nil); in.umf, in.umfPartial, in.umfFour = true, false, false })
+	add("SetUnmarshaler(nil, fn)", func(in *polInst) { in.s.SetUnmarshaler(nil, unm); in.umf, in.umfPartial, in.umfFour = false, false, false })
+	add("SetMarshaler(fn, nil)", func(in *polInst) { in.s.SetMarshaler(mar, nil); in.maf = true })
+	add("SetMarshaler(nil, fn)", func(in *polInst) { in.s.SetMarshaler(nil, mar); in.maf = false })
 	add("SetEqualityPolicy(nil)", func(in *polInst) { in.s.SetEqualityPolicy(nil); in.eqf = 0 })
 	add("SetUnmarshaler(fn)", func(in *polInst) { in.s.SetUnmarshaler(unm); in.umf, in.umfPartial, in.umfFour = true, false, false })
 	add("SetUnmarshaler(partial result + error)", func(in *polInst) { in.s.SetUnmarshaler(unmPartial); in.umf, in.umfPartial, in.umfFour = true, true, false })
